@@ -158,6 +158,7 @@ def main():
 
     # ------------------------------------------------------------------ obligations of this property
     obligations, failures, functions, trusted, dropped, cmds, canaries = {}, [], [], [], [], [], {}
+    diffs = {}
     rewrite_counts = {}
     solver_ms = 0.0
     for r in unit_results:
@@ -194,6 +195,9 @@ def main():
                 functions.append(dict(function=f["path"], source="%s:%d" % (f["file"], f["line"]), unit=r["unit"],
                                       backend="verus", external=f["external"], labels=[l for l in f["labels"] if l.startswith(prop + ".")],
                                       solver_ms=round(sum(x["ms"] for x in t), 2) if t else None))
+        for fpath, dtext in r.get("diffs", {}).items():
+            if fpath in carriers and dtext:
+                diffs["%s/%s" % (r["unit"], fpath)] = dtext.split("\n")[:80]
         trusted += ["[%s] %s" % (r["unit"], x) for x in r["trusted"]]
         dropped += ["[%s] %s" % (r["unit"], x) for x in r["dropped"]]
         cmds.append(r["cmd"])
@@ -321,6 +325,7 @@ def main():
             bounded_checks_not_counted=bounded,
             canaries_must_fail=canaries,
             extraction_rewrites=rewrite_counts,
+            extraction_diffs_source_vs_verified=diffs,
             solver_time_ms=round(solver_ms, 1),
             known_findings_open=[dict(obligation=f["obligation"], detail=f.get("detail"), what=kf.get("what")) for kf, f in known_hit],
             undecided_clauses=cfg.get("undecided", []),
